@@ -3,6 +3,7 @@ package props
 import (
 	"fmt"
 	"math/big"
+	"sort"
 	"strings"
 	"sync"
 	"time"
@@ -51,11 +52,21 @@ func structBases() (map[string][]int, []int) {
 		famBases["onion"] = tlsBases
 		famBases["rsa-key"] = hm["e_rsa_mod_less_than_2048_bits"]
 		famBases["eku-ku"] = tlsBases
+		smime := map[int]bool{}
+		for _, ln := range []string{"e_mailbox_address_shall_contain_an_rfc822_name", "e_single_email_subject_if_present", "e_commonname_mailbox_validated", "e_smime_legacy_aia_shall_have_one_http"} {
+			for _, i := range hm[ln] {
+				if homeClass[ln][i] >= 1 && !smime[i] {
+					smime[i] = true
+					famBases["smime-subject"] = append(famBases["smime-subject"], i)
+				}
+			}
+		}
+		sort.Ints(famBases["smime-subject"])
 	})
 	return famBases, tlsBases
 }
 
-var structFamilies = []string{"rfc-br-dns", "san-ian", "subject-issuer", "aia", "validity", "name-length", "onion", "rsa-key"}
+var structFamilies = []string{"rfc-br-dns", "san-ian", "subject-issuer", "aia", "validity", "name-length", "onion", "rsa-key", "smime-subject"}
 
 var latestEffective = time.Date(2024, 6, 1, 0, 0, 0, 0, time.UTC) // after every pair member's effective date
 
@@ -152,7 +163,10 @@ func drawStructured(rt *rapid.T, fam string) (structCert, bool) {
 		var ads []*dt.Node
 		for i, n := 0, rapid.IntRange(1, 3).Draw(rt, "n"); i < n; i++ {
 			u, _ := gen.DrawURI(rt)
-			if rapid.IntRange(0, 3).Draw(rt, "internal") == 0 {
+			if rem := removedTLDs(); len(rem) > 0 && rapid.IntRange(0, 4).Draw(rt, "removedtld") == 0 {
+				// a host under a TLD that has since left the root zone: valid at one instant, not at another
+				u = "http://ocsp.example." + rem[rapid.IntRange(0, len(rem)-1).Draw(rt, "tld")] + "/x"
+			} else if rapid.IntRange(0, 3).Draw(rt, "internal") == 0 {
 				u = "http://" + rapid.SampledFrom([]string{"intranet", "ocsp.corp", "ca.local", "10.1.2.3", "[::1]", "ocsp.example.com", "host.invalidtld", "x.test", "ca.example.com:8080", "%41.com"}).Draw(rt, "host") + "/x"
 			}
 			m := oidOCSP
@@ -219,6 +233,43 @@ func drawStructured(rt *rapid.T, fam string) (structCert, bool) {
 			v.SetPolicies([]int{2, 23, 140, 1, 1})
 			desc = append(desc, "policy:EV")
 		}
+	case "smime-subject":
+		// a subject that repeats attribute types - several commonNames, several emailAddresses, mailbox and
+		// non-mailbox values in either order - on an S/MIME certificate, and a SAN that names some of them
+		vals := []string{"Jane Doe", "jane.doe@example.com", "other@example.org", "JANE.DOE@EXAMPLE.COM", "not a mailbox", "", "x@", "postmaster@xn--mnchen-3ya.de", "Pseudonym: J"}
+		var rdns [][]*dt.Node
+		rdns = append(rdns, []*dt.Node{gen.ATV(gen.OIDC, 19, []byte("US"))})
+		var mails []string
+		for _, attr := range []struct {
+			oid []int
+			tag uint32
+			max int
+		}{{gen.OIDCN, 12, 3}, {gen.OIDEmailAt, 22, 3}, {gen.OIDO, 12, 2}, {gen.OIDGiven, 12, 2}, {gen.OIDSurname, 12, 2}, {gen.OIDSerial, 19, 1}} {
+			for i, n := 0, rapid.IntRange(0, attr.max).Draw(rt, fmt.Sprintf("n%d", attr.oid[len(attr.oid)-1])); i < n; i++ {
+				val := vals[rapid.IntRange(0, len(vals)-1).Draw(rt, "val")]
+				rdns = append(rdns, []*dt.Node{gen.ATV(attr.oid, attr.tag, []byte(val))})
+				desc = append(desc, fmt.Sprintf("%v=%q", attr.oid[len(attr.oid)-1], val))
+				if strings.Contains(val, "@") {
+					mails = append(mails, val)
+				}
+			}
+		}
+		v.SetSubject(gen.RDNSeq(rdns...))
+		var gns []*dt.Node
+		for _, m := range mails {
+			if rapid.IntRange(0, 2).Draw(rt, "insan") > 0 {
+				gns = append(gns, gen.GNEmail([]byte(m)))
+			}
+		}
+		if len(gns) == 0 || rapid.Bool().Draw(rt, "extra") {
+			g, d := gen.DrawGN(rt)
+			gns = append(gns, g)
+			desc = append(desc, "san:"+d)
+		}
+		v.SetSAN(false, gns...)
+		if rapid.Bool().Draw(rt, "policy") {
+			v.SetPolicies([]int{2, 23, 140, 1, 5, rapid.IntRange(1, 4).Draw(rt, "val"), rapid.IntRange(1, 3).Draw(rt, "gen")})
+		}
 	case "rsa-key":
 		bits := rapid.SampledFrom([]int{1023, 1024, 2047, 2048, 2049, 3071, 3072, 4096, 512}).Draw(rt, "bits")
 		nb := (bits + 7) / 8
@@ -250,4 +301,25 @@ func drawStructured(rt *rapid.T, fam string) (structCert, bool) {
 // drawAnyStructured picks a family.
 func drawAnyStructured(rt *rapid.T) (structCert, bool) {
 	return drawStructured(rt, structFamilies[rapid.IntRange(0, len(structFamilies)-1).Draw(rt, "family")])
+}
+
+var (
+	removedOnce sync.Once
+	removedList []string
+)
+
+// removedTLDs: table entries with a removal date (read from gtld_map.go like C18 does).
+func removedTLDs() []string {
+	removedOnce.Do(func() {
+		tab, keys, err := loadTLDTable()
+		if err != nil {
+			return
+		}
+		for _, k := range keys {
+			if tab[k].Removal != "" && isIA5(k) && !strings.HasPrefix(k, "xn--") {
+				removedList = append(removedList, k)
+			}
+		}
+	})
+	return removedList
 }
